@@ -47,3 +47,57 @@ package poly1305
 //@ trusted
 //@ note constant-time comparison of the tag of the stream written so far with expected
 //@ pure
+
+// ---- C04: block bookkeeping of the incremental MAC on the assembly path ----
+// update (assembly) is trusted: it absorbs msg into the accumulator; the bytes absorbed are recorded in
+// the ghost stream (ulen, ubuf) of the state object. Everything written so far is 'absorbed bytes
+// followed by the buffer'; Write absorbs whole 16-byte blocks only, Sum absorbs the buffered rest once.
+//@ ghostdecl ubuf (Array Int Int)
+//@ ghostinit golang.org/x/crypto/internal/poly1305.macState ulen 0
+
+//@ func update
+//@ props C04
+//@ trusted
+//@ note assembly (sum_amd64.s): not verified; assumed to change only the accumulator state.h
+//@ nonnil state
+//@ modifies state.h
+//@ modifies ghost(state, ulen)
+//@ modifies ghost(state, ubuf)
+//@ ensures ghost(state, ulen) == old(ghost(state, ulen)) + len(msg)
+//@ ensures forall(q, old(ghost(state, ulen)), old(ghost(state, ulen)) + len(msg), ghost(state, ubuf)[q] == msg[q - old(ghost(state, ulen))])
+//@ ensures forall(q, 0, old(ghost(state, ulen)), ghost(state, ubuf)[q] == old(ghost(state, ubuf)[q]))
+
+//@ pred ul(h) = ghost(&h.macGeneric.macState, ulen)
+//@ pred minv(h) = 0 <= h.offset && h.offset < 16 && ul(h) >= 0 && ul(h) % 16 == 0
+//@ pred mtot(h) = ul(h) + h.offset
+//@ pred mbyt(h, q) = ite(q < ul(h), ghost(&h.macGeneric.macState, ubuf)[q], h.buffer[q - ul(h)])
+
+//@ func (*mac).Write
+//@ props C04
+//@ reindex
+//@ requires minv(h) && ref(p) != ref(h.buffer[:])
+//@ modifies h.macGeneric.macState.h
+//@ modifies h.macGeneric.buffer
+//@ modifies h.macGeneric.offset
+//@ modifies ghost(&h.macGeneric.macState, ulen)
+//@ modifies ghost(&h.macGeneric.macState, ubuf)
+//@ ensures result0 == len(p) && result1 == nil && minv(h) && mtot(h) == old(mtot(h)) + len(p)
+//@ ensures forall(q, 0, old(mtot(h)), mbyt(h, q) == old(mbyt(h, q)))
+//@ ensures forall(q, old(mtot(h)), old(mtot(h)) + len(p), mbyt(h, q) == p[q - old(mtot(h))])
+//@ canary ensures h.offset == 0
+
+//@ func finalize
+//@ props C04
+//@ trusted
+//@ note final reduction and addition of s: not verified; writes only *out
+//@ nonnil out h s
+//@ modifies *out
+
+//@ func (*mac).Sum
+//@ props C04
+//@ requires minv(h)
+//@ nonnil out
+//@ modifies *out
+//@ ensures h.offset == old(h.offset) && forall(k, 0, 16, h.buffer[k] == old(h.buffer[k]))
+// the buffered rest (a last block of fewer than 16 bytes) is absorbed exactly once, into a copy of the state
+//@ check_at "finalize(out, &state.h, &state.s)" ghost(state, ulen) == h.offset && forall(q, 0, h.offset, ghost(state, ubuf)[q] == h.buffer[q])
